@@ -250,8 +250,12 @@ def run(chk, rebaseline=False):
     if chk.replay and "break_on" in json.load(open(chk.replay)):
         c01forof.run(chk, chk.th, stats)
         return chk.finish()
+    if chk.replay and "throw_on" in json.load(open(chk.replay)):
+        c01forof.run_throw(chk, chk.th, stats)
+        return chk.finish()
     if not chk.replay:
         c01forof.run(chk, chk.th, stats)
+        c01forof.run_throw(chk, chk.th, stats)
 
     # ---- stream A: operators on primitives: tsrun vs model vs node -----------------
     prims = probes.PRIMS
